@@ -75,6 +75,8 @@ type wgWaiter struct {
 	cancel   context.CancelFunc
 	canceled bool
 	op       *HOp
+	// called with context.Background(): only the counter can release it
+	background bool
 }
 
 func c14Counter(w *W) {
@@ -146,7 +148,12 @@ func c14Counter(w *W) {
 			client++
 			id := client
 			wt := &wgWaiter{}
-			wt.ctx, wt.cancel = context.WithCancel(w.Ctx)
+			if simrt.Choose(4) == 0 {
+				wt.background = true
+				wt.ctx, wt.cancel = context.Background(), func() {}
+			} else {
+				wt.ctx, wt.cancel = context.WithCancel(w.Ctx)
+			}
 			waiters = append(waiters, wt)
 			allWaiters = append(allWaiters, wt)
 			simrt.Spawn("waiter", func() {
@@ -173,6 +180,9 @@ func c14Counter(w *W) {
 		for i := 0; i < nCancel; i++ {
 			wt := waiters[simrt.Choose(len(waiters))]
 			at := simrt.Stamp() + simrt.Choose(50)
+			if wt.background {
+				continue
+			}
 			simrt.Spawn("fault:cancel", func() {
 				simrt.WaitStep(at)
 				wt.canceled = true
@@ -224,9 +234,22 @@ func c14Counter(w *W) {
 		h.Return(op, wgOut{Panicked: panicked})
 		op = h.Invoke(0, wgIn{"num", 0})
 		h.Return(op, wgOut{Num: wg.Num()})
+		// waiters that cannot be cancelled are released through the counter
+		for _, wt := range allWaiters {
+			if wt.state == 1 && wt.background {
+				for k := wg.Num(); k > 0; k-- {
+					op := h.Invoke(0, wgIn{"add", -1})
+					wg.Done()
+					h.Return(op, wgOut{})
+				}
+				simrt.Quiesce()
+				judge("final (counter driven to zero for uncancellable waiters)")
+				break
+			}
+		}
 		// cancel every remaining waiter: all must return
 		for _, wt := range allWaiters {
-			if wt.state == 1 {
+			if wt.state == 1 && !wt.background {
 				wt.canceled = true
 				wt.cancel()
 				w.Fault("cancel-at-quiescence")
